@@ -490,6 +490,9 @@ def _mirror_ops(K, n, opname):
         return (lambda s, y: [raw(~s) if n else None, raw(s & y), raw(s | y), raw(s ^ y)]), [K.bits('y', n)], False
     if opname == 'add-mul':
         return (lambda s, y: [raw(s + y), raw(y + s), raw(s * 2)]), [K.bits('y', 2)], False
+    if opname == 'add-longer':
+        # the right operand is the longer one (Bits.__add__ copies the longer operand), also through __radd__ with a str / list
+        return (lambda s, y: [raw(s + y), raw(y + s), raw(y.__radd__(s))]), [K.bits('y', n + 2)], False
     raise ValueError(opname)
 
 
@@ -497,7 +500,7 @@ MIRROR_MUT = ['replace', 'replace-whole', 'replace-aligned', 'byteswap', 'insert
               'invert-all', 'set-all', 'clear']
 # split is deliberately absent: it is not in the property's list and tests/test_bitarray.py::TestLsb0Setting::test_split pins a hybrid behaviour
 # (delimiters located from the most significant end, pieces cut with lsb0 slices) that is not the mirror; see DESIGN.md 8.6
-MIRROR_ANY = ['cut', 'any-all', 'count-find-in', 'not-and', 'add-mul']
+MIRROR_ANY = ['cut', 'any-all', 'count-find-in', 'not-and', 'add-mul', 'add-longer']
 
 
 def _mirror_val(v, mirrored):
@@ -578,8 +581,10 @@ def conditions(tier):
                 add(f'C12.{which}[{c},n={n},m={m}]', h_find(c, n, m, which, False), f'all contents ({n}-bit data, {m}-bit pattern) x windows', n=n, m=m)
             for ends in (False, True):
                 add(f"C12.{'endswith' if ends else 'startswith'}[{c},n={n},m={m}]", h_startsends(c, n, m, ends), f'all contents x windows', n=n, m=m)
-        for (n, m) in ([(10, 1)] if q else [(9, 1), (10, 1), (10, 2), (16, 8), (17, 8)]):
+        for (n, m) in ([(10, 1), (17, 8)] if q else [(9, 1), (10, 1), (10, 2), (16, 8), (17, 8), (20, 8)]):
             for which in ('find', 'rfind', 'findall'):
+                if q and (n, m) == (17, 8) and which == 'findall':
+                    continue
                 if q:
                     add(f'C12.{which}-aligned[{c},n={n},m={m},start=None]', h_find(c, n, m, which, True, True), f'all contents ({n}-bit data, {m}-bit pattern) x end in [-{n + 1},{n + 1}] or None, bytealigned=True', n=n, m=m)
                     continue
@@ -611,7 +616,7 @@ def conditions(tier):
             for op in MIRROR_ANY + (MIRROR_MUT if c in ('BitArray', 'BitStream') else []):
                 if op in ('byteswap', 'replace-aligned') and n < 9:
                     continue
-                nn = {'byteswap': 17, 'replace-aligned': 10, 'replace': 4, 'replace-whole': 7, 'cut': 6}.get(op, n) if q else n
+                nn = {'byteswap': 17, 'replace-aligned': 10, 'replace': 4, 'replace-whole': 7, 'cut': 6, 'add-longer': 3}.get(op, n) if q else n
                 add(f'C12.mirror-{op}[{c},n={nn}]', h_mirror(c, nn, op), f'all {nn}-bit contents, operands and position arguments in [-{nn + 1},{nn + 1}] or None; lsb0 run vs library msb0 run on the reversed operands', n=nn, op=op)
     for c in (['ConstBitStream'] if q else ['ConstBitStream', 'BitStream']):
         for tok, L_ in (('uint:3', 3), ('bits:4', 4), ('bin:2', 2)):
